@@ -174,7 +174,10 @@ type Exec struct {
 	recvStatic        types.Type
 	ghostGenN         int
 	curLoop           *loopCtx
-	variant0          *Term // the termination measure at entry of the function under contract
+	guards            []guardSpec
+	guardCount        map[*types.Var]int
+	applyTypes        map[string]types.Type // static types of lastarg(i)/lastres(i)
+	variant0          *Term                 // the termination measure at entry of the function under contract
 	frameLocsCache    []frameLoc
 	frameLocsDone     bool
 	freshRefs         map[string]bool
@@ -281,6 +284,12 @@ func (x *Exec) heapSet(st *State, name string, v Term) {
 // the assigns clause of the function under contract (the frame is checked write by write:
 // DESIGN.md 4.1 "frame"). whole=true means the entire array may change.
 func (x *Exec) writeAt(st *State, name string, ref Term, whole bool) {
+	x.writeAtVal(st, name, ref, whole, nil, nil)
+}
+
+// writeAtVal: as writeAt, with the cell's value before and after the write when they are known (needed
+// for assigns locations that are sub-fields of a struct value held in the cell).
+func (x *Exec) writeAtVal(st *State, name string, ref Term, whole bool, before, after *Term) {
 	if x.contract == nil || !x.contract.HasAssign || x.entrySt == nil || x.inFrameEval || name == "G_bufContent" {
 		return
 	}
@@ -294,6 +303,13 @@ func (x *Exec) writeAt(st *State, name string, ref Term, whole bool) {
 		}
 		if l.whole {
 			return
+		}
+		if len(l.sub) > 0 {
+			if before == nil || after == nil {
+				continue
+			}
+			allowed = append(allowed, and(eq(ref, l.ref), x.sameExceptSub(*before, *after, l.sub)))
+			continue
 		}
 		allowed = append(allowed, eq(ref, l.ref))
 	}
